@@ -63,20 +63,20 @@ type TLSCfg struct {
 
 // Config of the reference server.
 type Config struct {
-	Hostname     string   `json:"hostname,omitempty"`
-	Caps         []string `json:"caps"`              // EHLO keyword lines, e.g. "8BITMIME", "AUTH PLAIN LOGIN"
-	CapsTLS      []string `json:"capsTLS,omitempty"` // after STARTTLS; nil: Caps without STARTTLS
-	UseCapsTLS   bool     `json:"useCapsTLS,omitempty"`
-	NoEHLO       bool     `json:"noEHLO,omitempty"` // EHLO is answered 502
+	Hostname   string   `json:"hostname,omitempty"`
+	Caps       []string `json:"caps"`              // EHLO keyword lines, e.g. "8BITMIME", "AUTH PLAIN LOGIN"
+	CapsTLS    []string `json:"capsTLS,omitempty"` // after STARTTLS; nil: Caps without STARTTLS
+	UseCapsTLS bool     `json:"useCapsTLS,omitempty"`
+	NoEHLO     bool     `json:"noEHLO,omitempty"` // EHLO is answered 502
 	// MultiLine: default (unscripted) positive replies are sent as legal two-line replies
 	// ("250-...<CRLF>250 ...").
-	MultiLine bool `json:"multiLine,omitempty"`
-	ImplicitTLS  bool     `json:"implicitTLS,omitempty"`
-	TLS          TLSCfg   `json:"tls,omitempty"`
-	Auth         AuthCfg  `json:"auth,omitempty"`
-	Rules        []Rule   `json:"rules,omitempty"`
-	ReplyDelayNs int64    `json:"replyDelayNs,omitempty"`
-	GreetDelayNs int64    `json:"greetDelayNs,omitempty"`
+	MultiLine    bool    `json:"multiLine,omitempty"`
+	ImplicitTLS  bool    `json:"implicitTLS,omitempty"`
+	TLS          TLSCfg  `json:"tls,omitempty"`
+	Auth         AuthCfg `json:"auth,omitempty"`
+	Rules        []Rule  `json:"rules,omitempty"`
+	ReplyDelayNs int64   `json:"replyDelayNs,omitempty"`
+	GreetDelayNs int64   `json:"greetDelayNs,omitempty"`
 }
 
 // Event is one entry of the server's history.
@@ -202,24 +202,24 @@ type txn struct {
 
 // Session is the per-connection automaton.
 type Session struct {
-	srv     *Server
-	ID      int
-	pipe    *sim.Pipe
-	raw     net.Conn // the simulated end
-	conn    net.Conn // raw or TLS
-	rbuf    []byte
-	greeted bool
-	helloed bool
-	esmtp   bool
-	ext     []string // advertised in the latest EHLO reply (keywords, upper case)
-	tx      *txn
-	TLS     bool
-	TLSState *tls.ConnectionState
-	authed  bool
-	counts  map[string]int
-	stalled bool
-	closed  bool
-	mailUTF8 bool
+	srv             *Server
+	ID              int
+	pipe            *sim.Pipe
+	raw             net.Conn // the simulated end
+	conn            net.Conn // raw or TLS
+	rbuf            []byte
+	greeted         bool
+	helloed         bool
+	esmtp           bool
+	ext             []string // advertised in the latest EHLO reply (keywords, upper case)
+	tx              *txn
+	TLS             bool
+	TLSState        *tls.ConnectionState
+	authed          bool
+	counts          map[string]int
+	stalled         bool
+	closed          bool
+	mailUTF8        bool
 	stallAfterWrite int64
 	lastAuth        bool // the previous command was an AUTH exchange
 	curLine         string
